@@ -242,3 +242,9 @@ Definition known_unknown_item (text : bytes) : bool :=
   existsb unknown_item (annotate None (map (fun raw => classify (trim_ascii raw)) (text_lines text []))).
 
 Definition known_db (text : bytes) : bool := existsb lossy_line (text_lines text []) || known_unknown_item text.
+
+(* ---------- domain of the text-level theorem ---------- *)
+(* after removing ASCII white space, no line begins or ends with a non-ASCII byte (Unicode white space at the
+   line edges is what Rust's trim removes and this ASCII specification does not describe) *)
+Definition ascii_edges (text : bytes) : bool := negb (existsb non_ascii_edge (text_lines text [])).
+Definition verdict_opt {A} (v : verdict A) : option A := match v with VOk a => Some a | _ => None end.
